@@ -21,6 +21,18 @@ CHECKS = {
     design_ref="DESIGN.md section 5 C15",
     note="Trusted: Coq kernel + VM; hand-written model tied by differential correspondence on batch histories; compiler and generator are scripted stand-ins; real process pools/signals are outside the model (worker mode is driven through check_oracle_mul + update_stats).",
     technique="Coq proof over state-machine model of the driver + correspondence on scripted batch histories"),
+ "C14": dict(
+    category="proof",
+    text="The regular expressions of the four compiler classes are regenerated from /repo on every run (CPython's own re._parser -> Coq regex AST, fail-closed) into Generated/Regexes.v; Diag/Regex.v is a backtracking matcher with Python's priority semantics and Diag/Analyze.v transliterates analyze_compiler_output. Properties_C14.v proves, for outputs of any length: the crash classification (analyze_crash_iff), that the failed map is exactly the group-by of the findall matches (no diagnostic dropped or moved: analyze_diag_is_findall, failed_add_groups), and for kotlinc and javac output grammars that exactly the files with an error line are reported with their messages while warnings, notes, quoted source and summaries add none (attribution_kotlin, attribution_java(_exact), warnings_add_no_file_*). These theorems are about the regenerated regexes, so an edited pattern re-checks or breaks them. Ties run every time: engine vs CPython re on random patterns; analyze_compiler_output vs the model on synthesised batch outputs of all four compilers with ground truth (also judged against the statement). Groovy and Scala (multi-line patterns) are covered by the correspondence and the generic theorems only.",
+    design_ref="DESIGN.md section 5 C14",
+    note="Trusted: Coq kernel + VM; re2coq translator; the engine is a model of CPython's sre validated by differential testing on every run; ASCII inputs; patterns that can match the empty string are rejected by the translator.",
+    technique="Coq proofs over regexes regenerated from source + engine/analyze correspondence with CPython re"),
+ "C07": dict(
+    category="proof",
+    text="Substitution, instantiation, supertypes and closure of src/ir/types.py are modelled in Types/Subst.v over nominal terms + class table. Properties_C07.v proves for all types/maps/tables: substituting with the empty map is the identity, the `cond` of perform_type_substitution is irrelevant for variable-free replacements, TypeConstructor.new's supertypes are the declared supertypes with the parameters replaced (new_supertypes), no substituted parameter survives anywhere -- nested arguments, wildcard bounds, bounds of other parameters (subst_everywhere_partial; the unrestricted form is refuted by a name clash witness), ground maps ground the type (subst_ground), get_supertypes is exactly the reflexive-transitive closure of the direct supertypes (sound; complete for tables without primitive-flagged supertypes, refuted otherwise), to_variance_free is idempotent. 'Mutates nothing' is a statement about the Python heap which the pure model satisfies trivially; it is carried by the correspondence: histories of new/substitute_type/substitute_type_args/to_variance_free/is_subtype/get_supertypes calls on shared objects with a deep structural snapshot of every existing object before and after each call.",
+    design_ref="DESIGN.md section 5 C07",
+    note="Trusted: Coq kernel + VM; hand-written model tied by correspondence on call histories; mutation-freedom observed by snapshots (exploration strength), not proved.",
+    technique="Coq proofs of substitution laws + correspondence and heap snapshots over call histories"),
 }
 
 NOT_APPLICABLE = {
@@ -28,7 +40,7 @@ NOT_APPLICABLE = {
  "C13": "The property is about CPython's pickle applied to ~40 IR classes; a Coq model would be a model of pickle and the only tie to the code would be the round-trip test itself (DESIGN.md section 6).",
 }
 
-PENDING = ["C01","C03","C04","C05","C06","C07","C08","C09","C10","C11","C12","C14","C17","C18"]
+PENDING = ["C01","C03","C04","C05","C06","C08","C09","C10","C11","C12","C17","C18"]
 
 def main():
     checks = []
